@@ -171,6 +171,14 @@ class ST:
     def _bin(self, I, op, other, reflected):
         a, b = (other, self) if reflected else (self, other)
         dt = "float" if "float" in (getattr(a, "dtype", None), getattr(b, "dtype", None)) or isinstance(other, float) or (is_z3(other) and z3.is_real(other)) else self.dtype
+        def num(x):  # a Boolean operand of an arithmetic operation counts as 0 / 1
+            if isinstance(x, bool):
+                return int(x)
+            return z3.If(x, 1, 0) if (is_z3(x) and z3.is_bool(x)) else x
+        if isinstance(op, (ast.Add, ast.Sub, ast.Mult)) and ("bool" in (getattr(a, "dtype", None), getattr(b, "dtype", None))):
+            f_ = {ast.Add: sc_add_g, ast.Sub: (lambda x, y: sc_add_g(x, ct.sc_neg(y))), ast.Mult: (lambda x, y: s_mul(I, x, y))}[type(op)]
+            other_dt = [getattr(x, "dtype", None) for x in (a, b) if getattr(x, "dtype", None) not in (None, "bool")]
+            return ST.ew(I, lambda x, y: f_(num(x), num(y)), a, b, dtype=(other_dt[0] if other_dt else "long"))
         if isinstance(op, ast.Add):
             return ST.ew(I, sc_add_g, a, b, dtype=dt)
         if isinstance(op, ast.Sub):
@@ -434,16 +442,23 @@ def _topk(I, t, k, dim=-1, largest=True, sorted=True):
         raise Unsupported("topk other than along the last dimension of a matrix")
     Mx, K = to_z3(t.shape[1]), to_z3(k)
     IDX = _fresh("topk_index", z3.IntSort(), z3.IntSort(), z3.IntSort())
-    VAL = _fresh("topk_value", z3.IntSort(), z3.IntSort(), z3.RealSort())
+    VALV = _fresh("topk_value", z3.IntSort(), z3.IntSort(), z3.RealSort())
+    VALF = _fresh("topk_value_is_minus_inf", z3.IntSort(), z3.IntSort(), z3.BoolSort())
     te = t.elem
+    probe = te(z3.Int("n_probe"), z3.Int("j_probe"))
+    ninf_aware = isinstance(probe, ct.NegGuarded) or ct._is_ninf(probe)
+    VAL = (lambda nn, kk: ct.NegGuarded(VALF(nn, kk), VALV(nn, kk))) if ninf_aware else (lambda nn, kk: VALV(nn, kk))
     I.ex.oblige("topk.k_at_most_the_extent", z3.And(K >= 0, K <= Mx))
     n_, k_, k2_, j_ = z3.Ints("n_tk k_tk k2_tk j_tk")
     rows = lambda nn: z3.And(nn >= 0, nn < to_z3(t.shape[0]))
-    at = lambda nn, kk: z3.Implies(z3.And(rows(nn), 0 <= kk, kk < K), z3.And(0 <= IDX(nn, kk), IDX(nn, kk) < Mx, VAL(nn, kk) == to_z3(te(nn, IDX(nn, kk)))))
+    B_ = lambda c: z3.BoolVal(c) if isinstance(c, bool) else c
+    same = (lambda x, y: B_(ct.ng_cmp("eq", x, y))) if ninf_aware else (lambda x, y: to_z3(x) == to_z3(y))
+    ge = (lambda x, y: B_(ct.ng_cmp("ge", x, y))) if ninf_aware else (lambda x, y: to_z3(x) >= to_z3(y))
+    at = lambda nn, kk: z3.Implies(z3.And(rows(nn), 0 <= kk, kk < K), z3.And(0 <= IDX(nn, kk), IDX(nn, kk) < Mx, same(VAL(nn, kk), te(nn, IDX(nn, kk)))))
     distinct = lambda nn, kk, kk2: z3.Implies(z3.And(rows(nn), 0 <= kk, kk < kk2, kk2 < K), IDX(nn, kk) != IDX(nn, kk2))
-    ordered = lambda nn, kk, kk2: z3.Implies(z3.And(rows(nn), 0 <= kk, kk <= kk2, kk2 < K), VAL(nn, kk) >= VAL(nn, kk2))
+    ordered = lambda nn, kk, kk2: z3.Implies(z3.And(rows(nn), 0 <= kk, kk <= kk2, kk2 < K), ge(VAL(nn, kk), VAL(nn, kk2)))
     notsel = lambda nn, jj: z3.ForAll([k_], z3.Implies(z3.And(0 <= k_, k_ < K), IDX(nn, k_) != jj))
-    optimal = lambda nn, jj: z3.Implies(z3.And(rows(nn), 0 <= jj, jj < Mx, K >= 1, notsel(nn, jj)), to_z3(te(nn, jj)) <= VAL(nn, K - 1))
+    optimal = lambda nn, jj: z3.Implies(z3.And(rows(nn), 0 <= jj, jj < Mx, K >= 1, notsel(nn, jj)), ge(VAL(nn, K - 1), te(nn, jj)))
     I.ex.assume(z3.ForAll([n_, k_], at(n_, k_)))
     I.ex.assume(z3.ForAll([n_, k_, k2_], distinct(n_, k_, k2_)))
     I.ex.assume(z3.ForAll([n_, k_, k2_], ordered(n_, k_, k2_)))
@@ -526,6 +541,46 @@ def _inplace(fn):
 
 
 METH["sqrt_"] = _inplace(_sqrt)
+
+
+@meth("clamp", "clip")
+def _clamp(I, t, min=None, max=None):
+    r = t
+    if min is not None:
+        r = ST.ew(I, lambda x: ct.sc_max(x, min), r, dtype=t.dtype)
+    if max is not None:
+        r = ST.ew(I, lambda x: ct.sc_min(x, max), r, dtype=t.dtype)
+    return r
+
+
+METH["clamp_max"] = lambda I, t, m: _clamp(I, t, max=m)
+
+
+def f_one_hot(I, t, num_classes=-1):
+    if not isinstance(num_classes, int) and not is_z3(num_classes):
+        raise Unsupported("one_hot without num_classes")
+    e = t.elem
+    for pt in I.ex.ghost.get("one_hot_points", {}).get(len(t.shape), []):
+        x = to_z3(e(*pt))
+        I.ex.oblige("one_hot.class_in_range", z3.And(x >= 0, x < to_z3(num_classes)))
+    return ST(t.shape + (num_classes,), lambda *idx: sc_where(to_z3(e(*idx[:-1])) == to_z3(idx[-1]), 1, 0), "long")
+
+
+@meth("scatter")
+def _scatter(I, t, dim, index, src):
+    """scatter along `dim` with an index tensor of extent 1 there (one write per line): out = src where position = index, else self"""
+    d = dim % len(t.shape)
+    if not (isinstance(index.shape[d], int) and index.shape[d] == 1):
+        raise Unsupported("scatter with more than one index per line on symbolic shapes")
+    te, ie = t.elem, index.elem
+    se = src.elem if isinstance(src, ST) else None
+
+    def elem(*idx):
+        at = list(idx[:d]) + [0] + list(idx[d + 1:])
+        v = se(*at) if se is not None else src
+        return sc_where(to_z3(idx[d]) == to_z3(ie(*at)), v, te(*idx))
+
+    return ST(t.shape, elem, t.dtype)
 for _nm, _op in (("add", ast.Add()), ("sub", ast.Sub()), ("mul", ast.Mult()), ("div", ast.Div())):
     METH[_nm] = (lambda op: lambda I, t, o, **k: t._bin(I, op, o, False))(_op)
     METH[_nm + "_"] = (lambda op: lambda I, t, o, **k: t.__vc_iop__(I, op, o))(_op)
@@ -605,6 +660,9 @@ def _to(I, t, *a, **k):
     if d is None:
         return t
     tag = ct.dtype_tag(d)
+    if tag == "bool" and t.dtype != "bool":
+        e = t.elem
+        return ST(t.shape, lambda *idx: to_z3(e(*idx)) != 0, "bool")
     return _float(I, t) if tag == "float" else (_long(I, t) if tag == "long" else t)
 
 
@@ -690,6 +748,14 @@ def _view(I, t, *shape):
     if sum(1 for d in new if isinstance(d, int) and d == -1) > 1:
         raise PyRaise("RuntimeError", "only one dimension can be inferred")
     nonunit_new = [(i, d) for i, d in enumerate(new) if not (isinstance(d, int) and d == 1)]
+    if len(nonunit_new) + 1 == len(nonunit_old) and len(new) + 1 == len(t.shape):
+        # one pair of adjacent dimensions merged (row-major): find it
+        for a_ in range(len(new)):
+            if all(dim_eq(new[i], t.shape[i]) for i in range(a_)) and all(dim_eq(new[i], t.shape[i + 1]) for i in range(a_ + 1, len(new))):
+                r = _flatten(I, t, a_, a_ + 1)
+                if not (isinstance(new[a_], int) and new[a_] == -1) and not dim_eq(new[a_], r.shape[a_]):
+                    I.ex.oblige("view.sizes_agree", to_z3(new[a_]) == to_z3(r.shape[a_]))
+                return r
     if len(nonunit_new) != len(nonunit_old):
         raise Unsupported("view that merges or splits symbolic dimensions")
     for (i, d), (i2, d2) in zip(nonunit_new, nonunit_old):
@@ -820,6 +886,7 @@ def _any_dim(I, t, dim, keepdim=False):
     ax2 = z3.ForAll(ov + [jv], z3.Implies(z3.And(rng_o, jv >= 0, jv < n, el(ov, jv)), Bf(*ov)))
     I.ex.assume(ax1)
     I.ex.assume(ax2)
+    I.ex.ghost.setdefault("anys", []).append({"B": Bf, "n": n, "el": el})
     r = ST(out_shape, lambda *idx: Bf(*[to_z3(i) for i in idx]), "bool")
     return _unsqueeze(I, r, d) if keepdim else r
 
@@ -906,10 +973,20 @@ def _gather(I, t, dim, index):
     def elem(*idx):
         k = ie(*idx)
         return te(*(list(idx[:d]) + [k] + list(idx[d + 1:])))
-    ii = [z3.Int("g_%d" % j) for j in range(len(index.shape))]
+    # in-bounds at an arbitrary position: fresh skolem constants (FORALL-introduction), so the goal is quantifier-free; recorded
+    # top-k contracts are instantiated at the skolem position (pairs of adjacent coordinates), which is where indices come from
+    ii = [I.ex.fresh("int", "gather_pos") for _ in range(len(index.shape))]
     rng = z3.And([z3.And(i >= 0, i < to_z3(n)) for i, n in zip(ii, index.shape)])
     kk = to_z3(index.elem(*ii))
-    I.ex.oblige("gather.index_in_bounds", z3.ForAll(ii, z3.Implies(rng, z3.And(kk >= 0, kk < to_z3(t.shape[d])))))
+    for tk in I.ex.ghost.get("topks", []):
+        for a_ in range(len(ii)):
+            for b_ in range(len(ii)):
+                if a_ != b_:
+                    I.ex.instance(tk["at"](ii[a_], ii[b_]))
+    for hook in I.ex.ghost.get("skolem_hooks", []):  # the sidecar's own quantified preconditions, instantiated at the new position
+        for x in hook(ii):
+            I.ex.instance(x)
+    I.ex.oblige("gather.index_in_bounds", z3.Implies(rng, z3.And(kk >= 0, kk < to_z3(t.shape[d]))))
     return ST(index.shape, elem, t.dtype)
 
 
@@ -1017,7 +1094,7 @@ def dispatch(name, ct_fn):
 
 
 METH["softmax"] = f_softmax
-FUNCS.update({"torch.stack": f_stack, "torch.cat": f_cat, "torch.ones": f_ones, "torch.zeros": f_zeros, "torch.nn.functional.softmax": f_softmax, "torch.softmax": f_softmax, "torch.pow": f_pow, "torch.matmul": lambda I, a, b: _matmul(I, a, b), "torch.empty": f_empty, "torch.arange": f_arange, "torch.full": f_full, "torch.full_like": f_full_like, "torch.where": f_where, "torch.min": f_min})
+FUNCS.update({"torch.nn.functional.one_hot": f_one_hot, "torch._C._nn.one_hot": f_one_hot, "torch.stack": f_stack, "torch.cat": f_cat, "torch.ones": f_ones, "torch.zeros": f_zeros, "torch.nn.functional.softmax": f_softmax, "torch.softmax": f_softmax, "torch.pow": f_pow, "torch.matmul": lambda I, a, b: _matmul(I, a, b), "torch.empty": f_empty, "torch.arange": f_arange, "torch.full": f_full, "torch.full_like": f_full_like, "torch.where": f_where, "torch.min": f_min})
 
 
 def stubs():
